@@ -19,6 +19,7 @@ import (
 
 	tokentypes "mods.irisnet.org/modules/token/types"
 	v1 "mods.irisnet.org/modules/token/types/v1"
+	"mods.irisnet.org/modules/token/types/v1beta1"
 	"mods.irisnet.org/simapp"
 
 	"verif/sim/engine"
@@ -74,6 +75,7 @@ type Config struct {
 	PMulti      float64   `json:"p_multi"`
 	PRace       float64   `json:"p_race"`
 	PEdge       float64   `json:"p_edge_amount"`
+	PLegacy     float64   `json:"p_legacy"`     // share of issue/edit/mint/burn/transfer sent as v1beta1 messages
 	PGhost      float64   `json:"p_ghost"`      // operations around identifiers of issue attempts that did not commit
 	PGhostMake  float64   `json:"p_ghost_make"` // planned issue + failing second message, then probing
 }
@@ -139,6 +141,8 @@ type Module struct {
 	ghosts   []ghost
 	ghostMin map[string]bool
 	ghostSym map[string]bool
+	// denoms a fee swap paid out before any token declared them (reported under C10)
+	phantomDenom map[string]bool
 	// per block
 	conv        map[string]*convNote // contract hex ("" = unknown) -> conversion outcomes of this block
 	sawRejected bool
@@ -150,7 +154,7 @@ func New() *Module {
 	return &Module{toks: map[string]*tok{}, byMin: map[string]*tok{}, burnt: map[string]*big.Int{}, modHold: map[string]*big.Int{},
 		erc: map[string]map[string]*big.Int{}, faults: map[string]faultSpec{}, faultHeight: map[string]int64{},
 		fired: map[string]string{}, opKey: map[int]string{}, unsupported: map[string]bool{},
-		pairs: map[string]pairCfg{}, conv: map[string]*convNote{}, ghostMin: map[string]bool{}, ghostSym: map[string]bool{}}
+		pairs: map[string]pairCfg{}, conv: map[string]*convNote{}, ghostMin: map[string]bool{}, ghostSym: map[string]bool{}, phantomDenom: map[string]bool{}}
 }
 
 func (m *Module) Name() string { return Name }
@@ -273,6 +277,29 @@ func (m *Module) Configure(w *engine.World, r *engine.Rand) any {
 		}
 		c.Pool = append(c.Pool, poolTok{Symbol: sym, MinUnit: mu, Scale: scaleOf(r), Conv: r.Bool(pc)})
 	}
+	// identifiers colliding across kinds: a token whose SYMBOL is another token's MIN UNIT, and
+	// one whose MIN UNIT is another token's SYMBOL (both are valid: uniqueness is per kind)
+	if r.Bool(0.65) {
+		a := c.Pool[r.Intn(len(c.Pool))]
+		clip := func(s string) string {
+			if len(s) > 64 {
+				return s[:64]
+			}
+			return s
+		}
+		both := r.Bool(0.4)
+		if both || r.Bool(0.6) {
+			c.Pool = append(c.Pool, poolTok{Symbol: a.MinUnit, MinUnit: clip("u" + a.MinUnit), Scale: scaleOf(r), Conv: true})
+		}
+		if both || len(c.Pool) == n {
+			c.Pool = append(c.Pool, poolTok{Symbol: clip("c" + a.Symbol), MinUnit: a.Symbol, Scale: scaleOf(r), Conv: true})
+		}
+		for i := range c.Pool {
+			if c.Pool[i].Symbol == a.Symbol {
+				c.Pool[i].Conv = true
+			}
+		}
+	}
 	if r.Bool(0.5) {
 		c.FeeSym, c.FeeMin, c.FeeScale = stake, stake, 0
 	} else {
@@ -341,6 +368,9 @@ func (m *Module) Configure(w *engine.World, r *engine.Rand) any {
 	}
 	c.PRace = 0.2 + 0.4*r.Float()
 	c.PEdge = 0.3 + 0.4*r.Float()
+	if r.Bool(0.75) {
+		c.PLegacy = 0.05 + 0.3*r.Float()
+	}
 	if r.Bool(0.8) {
 		c.PGhost = 0.02 + 0.1*r.Float()
 		c.PGhostMake = 0.01 + 0.04*r.Float()
@@ -447,25 +477,38 @@ type issueArgs struct {
 	Initial  string `json:"initial"`
 	Max      string `json:"max"`
 	Mintable bool   `json:"mintable"`
+	Legacy   bool   `json:"legacy,omitempty"`
 }
 type editArgs struct {
 	Symbol   string `json:"symbol"`
 	Name     string `json:"name"`
 	Max      string `json:"max"`
 	Mintable string `json:"mintable"` // "", "true", "false"
+	Legacy   bool   `json:"legacy,omitempty"`
 }
+
+// Legacy (v1beta1) mint and burn name the token by symbol and the amount in MAIN units; the
+// handler converts with the token it finds under that symbol. The oracle does the same with
+// the model's token at judgement time (norm), so Denom / Amount are not trusted for them.
 type mintArgs struct {
-	Denom    string `json:"denom"`
-	Amount   string `json:"amount"`
+	Denom    string `json:"denom,omitempty"`
+	Amount   string `json:"amount,omitempty"`
 	Receiver string `json:"receiver"`
+	Legacy   bool   `json:"legacy,omitempty"`
+	Symbol   string `json:"symbol,omitempty"`
+	Main     string `json:"main,omitempty"`
 }
 type burnArgs struct {
-	Denom  string `json:"denom"`
-	Amount string `json:"amount"`
+	Denom  string `json:"denom,omitempty"`
+	Amount string `json:"amount,omitempty"`
+	Legacy bool   `json:"legacy,omitempty"`
+	Symbol string `json:"symbol,omitempty"`
+	Main   string `json:"main,omitempty"`
 }
 type transferArgs struct {
 	Symbol string `json:"symbol"`
 	To     string `json:"to"`
+	Legacy bool   `json:"legacy,omitempty"`
 }
 type sendArgs struct {
 	To     string `json:"to"`
@@ -656,8 +699,65 @@ func (m *Module) Gen(w *engine.World, r *engine.Rand) *engine.TxPlan {
 	return tp
 }
 
-// genOp proposes one operation; actor >= 0 forces the signer (for multi-message plans).
+// genOp proposes one operation; actor >= 0 forces the signer (for multi-message plans). A
+// share of the five messages that still exist in the v1beta1 service goes that way.
 func (m *Module) genOp(w *engine.World, r *engine.Rand, forced int) *engine.Op {
+	op := m.genOp0(w, r, forced)
+	if op == nil || !r.Bool(m.cfg.PLegacy) {
+		return op
+	}
+	return m.legacy(op)
+}
+
+// legacy rewrites an op to its v1beta1 form where there is one.
+func (m *Module) legacy(op *engine.Op) *engine.Op {
+	mainOf := func(denom, amount string) (string, string, bool) {
+		t := m.byMin[denom]
+		if t == nil {
+			return "", "", false
+		}
+		v := new(big.Int).Quo(bigOf(amount), pow10(t.Scale))
+		if v.Sign() == 0 {
+			v.SetInt64(1)
+		}
+		if !v.IsUint64() {
+			return "", "", false
+		}
+		return t.Symbol, v.String(), true
+	}
+	switch op.Kind {
+	case "issue":
+		var a issueArgs
+		op.Decode(&a)
+		a.Legacy = true
+		return engine.NewOp(Name, op.Kind, op.Actor, a)
+	case "edit":
+		var a editArgs
+		op.Decode(&a)
+		a.Legacy = true
+		return engine.NewOp(Name, op.Kind, op.Actor, a)
+	case "transfer":
+		var a transferArgs
+		op.Decode(&a)
+		a.Legacy = true
+		return engine.NewOp(Name, op.Kind, op.Actor, a)
+	case "mint":
+		var a mintArgs
+		op.Decode(&a)
+		if sym, v, ok := mainOf(a.Denom, a.Amount); ok {
+			return engine.NewOp(Name, op.Kind, op.Actor, mintArgs{Legacy: true, Symbol: sym, Main: v, Receiver: a.Receiver})
+		}
+	case "burn":
+		var a burnArgs
+		op.Decode(&a)
+		if sym, v, ok := mainOf(a.Denom, a.Amount); ok {
+			return engine.NewOp(Name, op.Kind, op.Actor, burnArgs{Legacy: true, Symbol: sym, Main: v})
+		}
+	}
+	return op
+}
+
+func (m *Module) genOp0(w *engine.World, r *engine.Rand, forced int) *engine.Op {
 	nAct := len(w.Actors) - 1
 	toks := m.sortedToks()
 	issued := 0
@@ -1093,23 +1193,39 @@ func (m *Module) Build(w *engine.World, op *engine.Op) (sdk.Msg, error) {
 	case "issue":
 		var a issueArgs
 		op.Decode(&a)
+		if a.Legacy {
+			return &v1beta1.MsgIssueToken{Symbol: a.Symbol, Name: a.Name, Scale: a.Scale, MinUnit: a.MinUnit,
+				InitialSupply: u64Of(a.Initial), MaxSupply: u64Of(a.Max), Mintable: a.Mintable, Owner: sender}, nil
+		}
 		return &v1.MsgIssueToken{Symbol: a.Symbol, Name: a.Name, Scale: a.Scale, MinUnit: a.MinUnit,
 			InitialSupply: u64Of(a.Initial), MaxSupply: u64Of(a.Max), Mintable: a.Mintable, Owner: sender}, nil
 	case "edit":
 		var a editArgs
 		op.Decode(&a)
+		if a.Legacy {
+			return &v1beta1.MsgEditToken{Symbol: a.Symbol, Name: a.Name, MaxSupply: u64Of(a.Max), Mintable: tokentypes.Bool(a.Mintable), Owner: sender}, nil
+		}
 		return &v1.MsgEditToken{Symbol: a.Symbol, Name: a.Name, MaxSupply: u64Of(a.Max), Mintable: tokentypes.Bool(a.Mintable), Owner: sender}, nil
 	case "mint":
 		var a mintArgs
 		op.Decode(&a)
+		if a.Legacy {
+			return &v1beta1.MsgMintToken{Symbol: a.Symbol, Amount: u64Of(a.Main), To: a.Receiver, Owner: sender}, nil
+		}
 		return &v1.MsgMintToken{Coin: coin(a.Denom, a.Amount), Receiver: a.Receiver, Owner: sender}, nil
 	case "burn":
 		var a burnArgs
 		op.Decode(&a)
+		if a.Legacy {
+			return &v1beta1.MsgBurnToken{Symbol: a.Symbol, Amount: u64Of(a.Main), Sender: sender}, nil
+		}
 		return &v1.MsgBurnToken{Coin: coin(a.Denom, a.Amount), Sender: sender}, nil
 	case "transfer":
 		var a transferArgs
 		op.Decode(&a)
+		if a.Legacy {
+			return &v1beta1.MsgTransferTokenOwner{SrcOwner: sender, DstOwner: a.To, Symbol: a.Symbol}, nil
+		}
 		return &v1.MsgTransferTokenOwner{SrcOwner: sender, DstOwner: a.To, Symbol: a.Symbol}, nil
 	case "send":
 		var a sendArgs
